@@ -258,6 +258,13 @@ def scenarios(masks: dict, thorough: bool) -> list[tuple[str, dict, str, list[di
                 for ascript in (["S1"], ["Fc"]):
                     spec = {**extra, "r": (m1, ("seq", (pk, operand), ("leaf", "c")))}
                     out.append((f"predicate; r = {sym[m1]}{{ {sign}{oname} ~ c }}, a: {ascript}", spec, "r", [{"a": list(ascript), "b": ["S1"], "c": ["S1"]}]))
+    # a predicate that fails *inside* a trivia rule, after a non-atomic rule of the trivia body has itself matched
+    # trivia: failures stay suppressed until the outermost trivia attempt is over (leaves placed by position:
+    # c a b q at 1 2 3 4, d at 2 - the trivia attempt after c reaches !q, fails, and is rewound)
+    for tname2 in ("WHITESPACE", "COMMENT"):
+        for m_n in (N, 0):
+            spec = {tname2: (S, ("seq", ("ref", "n"), ("neg", ("leaf", "q")))), "n": (m_n, ("seq", ("leaf", "a"), ("leaf", "b"))), "r": (0, ("seq", ("leaf", "c"), ("leaf", "d")))}
+            out.append((f"predicate inside trivia; {tname2} = _{{ n ~ !q }}, n = {sym[m_n]}{{ a ~ b }}; r = {{ c ~ d }}", spec, "r", [{"c": {1}, "a": {2}, "b": {3}, "q": {4}, "d": {2}}]))
     # trivia with a stack effect around repetitions and sequences
     for body_name, body in (("a* ~ b", ("seq", ("rep", ("leaf", "a")), ("leaf", "b"))), ("(a ~ b)*", ("rep", ("seq", ("leaf", "a"), ("leaf", "b")))), ("a? ~ b", ("seq", ("opt", ("leaf", "a")), ("leaf", "b")))):
         for wscript in (["S1p", "Fc", "S1p", "Fc", "S1p", "Fc", "Fc"], ["S1", "Fc", "S1", "Fc", "Fc", "Fc"]):
